@@ -363,3 +363,24 @@ pub fn vec_push_nogrow<T, A: std::alloc::Allocator>(v: &mut Vec<T, A>, value: T)
 pub fn vec_reserve_nogrow<T, A: std::alloc::Allocator>(v: &mut Vec<T, A>, additional: usize) {
     assert!(v.capacity() - v.len() >= additional, "Vec::reserve within the allocated capacity (growth is not modelled)");
 }
+
+// ---------------------------------------------------------------- Iterator::collect in one pass
+/// `iter.collect::<Vec<_>>()` modelled as one `for_each` pass into a vector allocated with the
+/// iterator's upper size bound. std's `Vec::from_iter` pulls elements with `next()`; for a
+/// `Filter` over a slice every `next()` is a search loop whose start position is symbolic after
+/// the first hit, so bounded unwinding instantiates the filter predicate (unwind+1)^2 times
+/// (measured for `select`: 12 M clauses for 3 candidates). `for_each` visits every slice element
+/// exactly once with a concrete position. Same elements, same order.
+pub trait CollectOnePass: Iterator + Sized {
+    fn collect_one_pass<B: FromIterator<Self::Item>>(self) -> B {
+        let (_, upper) = self.size_hint();
+        let cap = match upper {
+            Some(n) => n,
+            None => 0,
+        };
+        let mut v: Vec<Self::Item> = Vec::with_capacity(cap);
+        self.for_each(|x| vec_push_nogrow(&mut v, x));
+        B::from_iter(v)
+    }
+}
+impl<I: Iterator> CollectOnePass for I {}
